@@ -258,4 +258,31 @@ example : encodeOptInstr Gen.nvRows (sdkRot true "nv.RotXInstruction" 0 16 0) = 
 example : (encodeOptInstr Gen.nvRows (sdkRot true "nv.RotXInstruction" 0 15 0)).isSome = true := by
   decide +kernel
 
+/-- measurement bases given to `measure(basis_rotations=(x1, y, x2))`: a rotation outside a
+byte makes flushing raise (any table whose `meas_basis` row has the shape reg reg imm8×4) -/
+theorem sdk_meas_basis_rejects (T : Table) (q m x1 y x2 : Int) (row : Row)
+    (hrow : rowOf T "core.MeasBasisInstruction" = some row)
+    (hshape : row.shape = [.reg, .reg, .imm8, .imm8, .imm8, .imm8])
+    (hbad : (x1 < 0 ∨ 255 < x1) ∨ (y < 0 ∨ 255 < y) ∨ (x2 < 0 ∨ 255 < x2)) :
+    encodeInstr T (sdkMeasBasis q m x1 y x2) = none := by
+  rcases hbad with h | h | h
+  · exact encodeInstr_rejects T _ row hrow 2 .imm8 (.imm x1) (by rw [hshape]; rfl) rfl h
+  · exact encodeInstr_rejects T _ row hrow 3 .imm8 (.imm y) (by rw [hshape]; rfl) rfl h
+  · exact encodeInstr_rejects T _ row hrow 4 .imm8 (.imm x2) (by rw [hshape]; rfl) rfl h
+
+/-- breakpoint action / role values outside a byte are rejected -/
+theorem sdk_breakpoint_rejects (T : Table) (a r : Int) (row : Row)
+    (hrow : rowOf T "core.BreakpointInstruction" = some row) (hshape : row.shape = [.imm8, .imm8])
+    (hbad : (a < 0 ∨ 255 < a) ∨ (r < 0 ∨ 255 < r)) :
+    encodeInstr T (sdkBreakpoint a r) = none := by
+  rcases hbad with h | h
+  · exact encodeInstr_rejects T _ row hrow 0 .imm8 (.imm a) (by rw [hshape]; rfl) rfl h
+  · exact encodeInstr_rejects T _ row hrow 1 .imm8 (.imm r) (by rw [hshape]; rfl) rfl h
+
+example : rowOf Gen.nvRows "core.MeasBasisInstruction" =
+    some ⟨"core.MeasBasisInstruction", 41, "meas_basis", [.reg, .reg, .imm8, .imm8, .imm8, .imm8]⟩ := by
+  decide +kernel
+example : rowOf Gen.vanillaRows "core.BreakpointInstruction" =
+    some ⟨"core.BreakpointInstruction", 100, "breakpoint", [.imm8, .imm8]⟩ := by decide +kernel
+
 end NQ.C16
